@@ -66,7 +66,7 @@ def run_thorough(ctx, repo_root):
     # behaviour-preserving refactorings written by sub-agents that saw only the property text (benign/): silent on each of them
     import benign_patches
     bres = benign_patches.run_for_prop(ctx.prop, repo_root)
-    R.rule("AUDIT refactorings", 230, "helper extraction, loops <-> comprehensions, guard clauses, named constants, aliases ... leave the check silent")
+    R.rule("AUDIT refactorings", 290, "helper extraction, loops <-> comprehensions, guard clauses, named constants, aliases ... leave the check silent")
     R.extra_cov["refactorings_run"] = len(bres)
     stale_b = [n for n, st, _ in bres if st == "STALE"]
     alarms = [(n, first) for n, st, first in bres if st == "ALARM"]
